@@ -35,6 +35,8 @@ static int n_tasks(void) {
 }
 
 static void on_sig(int sig) {
+    if (sig == SIGALRM && vrt_alarm_should_wait(20, 12))
+        return; /* slow or starved, not stuck: keep waiting (bounded) */
     if (g_out) {
         fprintf(g_out, "{\"ev\":\"%s\",\"sig\":%d,\"call\":\"%s\",\"idx\":%d,\"site\":\"%p\"}\n", sig == SIGALRM ? "Blocked" : "Crash", sig, g_cur, g_idx,
                 vrt_fail_site());
@@ -93,12 +95,13 @@ static EbErrorType do_send(EbComponentType *h, int null_buf, int eos) {
 int main(int argc, char **argv) {
     if (argc < 3)
         return 2;
-    int  fail_idx = -1, count_idx = -1, repeat = 1;
+    int  fail_idx = -1, count_idx = -1, repeat = 1, sites_per = 0;
     long fail_k = 0;
     for (int i = 3; i < argc; i++) {
         if (!strcmp(argv[i], "--lp") && i + 1 < argc) g_lp = atoi(argv[++i]);
         else if (!strcmp(argv[i], "--fail") && i + 1 < argc) sscanf(argv[++i], "%d:%ld", &fail_idx, &fail_k);
         else if (!strcmp(argv[i], "--count") && i + 1 < argc) count_idx = atoi(argv[++i]);
+        else if (!strcmp(argv[i], "--sites") && i + 1 < argc) sites_per = atoi(argv[++i]);
         else if (!strcmp(argv[i], "--size") && i + 1 < argc) sscanf(argv[++i], "%dx%d", &g_w, &g_h);
         else if (!strcmp(argv[i], "--repeat") && i + 1 < argc) repeat = atoi(argv[++i]);
     }
@@ -140,8 +143,11 @@ int main(int argc, char **argv) {
         int         extra = -1;
         if (idx == fail_idx)
             vrt_fail_at(fail_k);
-        else if (idx == count_idx)
+        else if (idx == count_idx) {
             vrt_fail_at(0);
+            if (sites_per)
+                vrt_site_log_start();
+        }
         alarm(20);
         if (!strcmp(c, "init_handle(&h,cfg)")) rc = svt_av1_enc_init_handle(&H, NULL, &CFG);
         else if (!strcmp(c, "init_handle(NULL,cfg)")) rc = svt_av1_enc_init_handle(NULL, NULL, &CFG);
@@ -197,6 +203,8 @@ int main(int argc, char **argv) {
         long cnt   = (idx == fail_idx || idx == count_idx) ? vrt_fail_count() : -1;
         int  fired = idx == fail_idx ? vrt_fail_fired() : 0;
         void *site = idx == fail_idx ? vrt_fail_site() : NULL;
+        if (idx == count_idx && sites_per)
+            vrt_site_log_dump(g_out, sites_per);
         if (idx == fail_idx || idx == count_idx) vrt_fail_at(0);
         fprintf(g_out, "{\"ev\":\"Call\",\"idx\":%d,\"call\":\"%s\",\"rc\":%d,\"class\":\"%s\",\"n\":%d,\"fallible\":%ld,\"fired\":%d,\"handle\":%d,\"site\":\"%p\"}\n", idx, c,
                 (int)rc, cls(rc), extra, cnt, fired, H != NULL, site);
